@@ -109,7 +109,7 @@ func H_C18_Marshal() {
 		} else {
 			c18NativeMarshal(m, b, err, o, func() interface{} { return &descriptorpb.FieldDescriptorProto{} })
 			var back descriptorpb.FieldDescriptorProto
-			verifAssert(protojson.UnmarshalOptions{}.Unmarshal(b, &back) == nil, "the owning runtime's own JSON decoder accepts the output")
+			verifAssert(protojson.UnmarshalOptions{}.Unmarshal(b, &back) == nil, "native: the owning runtime's own JSON decoder accepts the output")
 		}
 	case c18Gogo, c18Legacy:
 		if !verifNative() {
@@ -137,14 +137,14 @@ func c18IndentLen(o c18Opts) int {
 
 // the visible effect of every marshal option, with the real codecs
 func c18NativeMarshal(m interface{}, b []byte, err error, o c18Opts, fresh func() interface{}) {
-	verifAssert2(err == nil, json.Valid(b), "the output is well-formed JSON")
+	verifAssert2(err == nil, json.Valid(b), "native: the output is well-formed JSON")
 	s := string(b)
-	verifAssert(strings.Contains(s, "\n") == (o.use && o.indent), "the indentation string is used iff given")
-	verifAssert(strings.Contains(s, "TYPE_INT64") == !(o.use && o.enumNums), "enum names unless numbers are requested")
-	verifAssert(strings.Contains(s, "jsonName") == (o.use && o.zeros), "zero-valued (unpopulated) fields are included iff requested")
+	verifAssert(strings.Contains(s, "\n") == (o.use && o.indent), "native: the indentation string is used iff given")
+	verifAssert(strings.Contains(s, "TYPE_INT64") == !(o.use && o.enumNums), "native: enum names unless numbers are requested")
+	verifAssert(strings.Contains(s, "jsonName") == (o.use && o.zeros), "native: zero-valued (unpopulated) fields are included iff requested")
 	dst := fresh()
-	verifAssert(JSONUnmarshaler(dst).UnmarshalJSON(b) == nil, "the unmarshaling adapter accepts the output")
-	verifAssert(Equal(dst, m), "and decodes it to a message equal to the original")
+	verifAssert(JSONUnmarshaler(dst).UnmarshalJSON(b) == nil, "native: the unmarshaling adapter accepts the output")
+	verifAssert(Equal(dst, m), "native: and decodes it to a message equal to the original")
 }
 
 func H_C18_Unmarshal() {
@@ -167,11 +167,11 @@ func H_C18_Unmarshal() {
 			verifAssert2(verifStubBool(call, "DiscardUnknown") == o.allowUnknown, verifStubBool(call, "AllowPartial") == o.partial, "protojson receives exactly the options given")
 			verifAssert((err != nil) == verifStubFailed(call), "a codec error is returned (wrapped), not swallowed")
 		} else {
-			verifAssert((err == nil) == (o.use && o.allowUnknown), "unknown JSON keys are tolerated iff requested")
+			verifAssert((err == nil) == (o.use && o.allowUnknown), "native: unknown JSON keys are tolerated iff requested")
 			// missing required fields are tolerated iff requested
 			part := &descriptorpb.UninterpretedOption_NamePart{}
 			perr := JSONUnmarshaler(part, opts...).UnmarshalJSON([]byte(`{}`))
-			verifAssert((perr == nil) == (o.use && o.partial), "missing required fields are tolerated iff requested")
+			verifAssert((perr == nil) == (o.use && o.partial), "native: missing required fields are tolerated iff requested")
 		}
 	case c18Gogo, c18Legacy:
 		if !verifNative() {
@@ -184,7 +184,7 @@ func H_C18_Unmarshal() {
 			verifAssert(verifStubBool(call, "AllowUnknownFields") == o.allowUnknown, "jsonpb receives exactly the option given")
 			verifAssert((err != nil) == verifStubFailed(call), "a codec error is returned (wrapped), not swallowed")
 		} else if k == c18Gogo {
-			verifAssert((err == nil) == (o.use && o.allowUnknown), "unknown JSON keys are tolerated iff requested")
+			verifAssert((err == nil) == (o.use && o.allowUnknown), "native: unknown JSON keys are tolerated iff requested")
 		}
 	}
 	if err != nil && !verifNative() {
